@@ -141,3 +141,14 @@ package xrep
 //@   ensures cast("*socket", result).ttl == 8
 //@
 // ---- end generated default contracts ----
+// ---- generated current-queue contracts (from `govc sites -select`): the select uses the socket's queues as of the last time the lock was held ----
+//@ func (*pipe).receiver
+//@   before select#1 assert selsends(p.s.recvQ) && selwaits(p.s.sizeQ)
+//@
+//@ func (*pipe).sender
+//@   before select#1 assert selwaits(p.sendQ)
+//@
+//@ func (*socket).RecvMsg
+//@   before select#1 assert selwaits(s.recvQ) && selwaits(s.sizeQ)
+//@
+// ---- end generated current-queue contracts ----
